@@ -8,7 +8,7 @@ VERIF = os.path.dirname(os.path.dirname(os.path.abspath(__file__)))
 CLAIMS = {
     'C13': dict(
         text='Machine-checked Lean 4 theorems over every rule function f and every start string: an accepted result is a fixed point reachable within the first application plus three re-applications; acceptance whenever the string stabilises within that bound; f\'s own error is propagated; invalid-label otherwise; at most four calls, each on the successive iterate. The model loop is tied to precis_core::profile::stabilize by running the real function on closures built from ALL function tables on up to 4 (thorough: 5) states with call recording, compared with the model and with an independent specification.',
-        note='Trusted: Lean kernel; the 12-line hand-written model of the stabilize loop (validated by exhaustive small-scope correspondence, not verified); Cow borrowed/owned distinction not modelled.',
+        note='Trusted: Lean kernel; the 12-line hand-written model of the stabilize loop (validated by exhaustive small-scope correspondence, not verified; its iteration bound is additionally re-read from the source text on every run by tools/srcfacts.py and proved equal to the model constant when the loop has the recognised shape); Cow borrowed/owned distinction not modelled.',
         technique='Lean 4 proof by induction on the iteration bound + exhaustive differential correspondence on finite function tables',
         design='§6 C13'),
     'C18': dict(
@@ -46,7 +46,7 @@ CLAIMS.update({
         design='§6 C12'),
     'C14': dict(
         text='Lean 4 theorems for every cp : Nat (so all 2^32 u32 values): both classes return exactly what the IANA precis-tables-6.3.0 registry lists; the model decision list equals the RFC 8264 section 8 list in its fixed order over independently parsed Unicode 6.3.0 data; Identifier disallows exactly what Freeform class-validates and they agree elsewhere; surrogates and values above U+10FFFF are DISALLOWED. Proved by kernel evaluation of step-function merges over the 34 regenerated tables (re-checked whenever the tables change) plus a rewriting proof that the model function is that step function (via the verified binary search). Correspondence: both entry points of both classes and 13 predicates at every code point 0..0x1100FF + boundary samples (thorough: all 2^32).',
-        note='Trusted: Lean kernel; tools/translate.py; tools/ucd_spec.py; transcription of RFC 8264 sections 8-9; HasCompat graph is data dumped from the implementation (external crate) and cross-checked against the NFKC model.',
+        note='Trusted: Lean kernel; tools/translate.py; tools/ucd_spec.py; transcription of RFC 8264 sections 8-9; the HasCompat graph dumped from the implementation is PROVED equal to the code-shaped definition (char::from_u32 fails: false; else c != nfkc(c)) over the normalizer model for every natural number (C14.has_compat_is_code); the order, predicates and outcomes of the decision list and the five class callbacks are translated from the source text on every run and proved to be the list the model interprets (SrcTie.derivedProp_eq_steps, decision_list_from_source, class_callbacks_from_source) when the function has the recognised shape.',
         technique='Lean 4 proof by kernel reflection on step functions (decide +kernel) + exhaustive per-code-point correspondence',
         design='§6 C14, §5'),
 })
@@ -54,7 +54,7 @@ CLAIMS.update({
 CLAIMS.update({
     'C03': dict(
         text='Lean 4 theorems: for each of the nine rules, every label (shorter than 2^63) and every usize position: the rule answers true iff the code point at the position is its own and the RFC 5892 Appendix A condition holds (ZWNJ backward/forward transparent scans proved equal to the RFC regular expression for runs of any length); not-applicable iff the code point is not the rule\'s own; undefined only when the position or an inspected neighbour lies outside the label; never a panic. The ten generated virama/script/joining-type tables equal the Unicode 6.3.0 data for every code point (kernel-checked against an independent parse); exactly the CONTEXTJ/CONTEXTO code points of both classes have a registered rule and it is their own. Correspondence: tables and registry at every code point, every rule with thousands (thorough: all 1,111,998 scalars) of code points as inspected neighbour in 10 roles, all labels <= 3 (thorough 4) over 20 class representatives at every offset.',
-        note='Trusted: Lean kernel; transcription of RFC 5892 Appendix A; tools/ucd_spec.py; model of context.rs validated by correspondence.',
+        note='Trusted: Lean kernel; transcription of RFC 5892 Appendix A; tools/ucd_spec.py; model of context.rs validated by correspondence; the arms of get_context_rule are additionally translated from the source text on every run (tools/srcfacts.py) and proved equal to the model registry for every code point when the match has the recognised shape (SrcTie.registry_from_source).',
         technique='Lean 4 proof (scan lemmas by induction; kernel-checked table equality by step-function reflection) + exhaustive neighbour/label correspondence',
         design='§6 C03'),
     'C04': dict(
@@ -81,7 +81,7 @@ CLAIMS.update({
 
 CLAIMS.update({
     'C01': dict(
-        text='Lean 4 theorems that the modelled outcome of every public operation is never `panic`: classification of any code point (the comparison behind every table search never answers None), allows for ANY class, each of the nine context rules at ANY usize position, all profile rules (the slice positions returned by find are always character boundaries: corollaries of the functional-correctness theorems C10-C12), prepare/enforce/compare of the four profiles, stabilize for any non-panicking rule. Only hypothesis: a label has fewer than 2^63 code points. The model produces `panic` exactly where the Rust text can (slicing, usize +-1 overflow, unwrap, indexing). Correspondence: every operation under catch_unwind on all strings <= 3 (thorough 5) over 12 byte-length/space/contextual/cased/wide/RTL representatives, nickname space patterns two characters longer, every rule at offsets up to usize::MAX, both classes at every code point; an implementation PANIC is by itself a failing input.',
+        text='Lean 4 theorems that the modelled outcome of every public operation is never `panic`: classification of any code point (the comparison behind every table search never answers None), allows for ANY class, each of the nine context rules at ANY usize position, all profile rules (the slice positions returned by find are always character boundaries: corollaries of the functional-correctness theorems C10-C12), prepare/enforce/compare of the four profiles, stabilize for any non-panicking rule. "Never slices inside a multi-byte character" is grounded in REAL UTF-8 (Lemmas/Utf8Bytes.lean: encoder, decoder round trip, str::is_char_boundary): the model slice is defined exactly when the position is a char boundary within the encoded bytes and then yields exactly the prefix/suffix bytes, and every str::find result is such a boundary. Only hypothesis: a label has fewer than 2^63 code points. The model produces `panic` exactly where the Rust text can (slicing, usize +-1 overflow, unwrap, indexing). Correspondence: every operation under catch_unwind on all strings <= 3 (thorough 5) over 12 byte-length/space/contextual/cased/wide/RTL representatives, nickname space patterns two characters longer, every rule at offsets up to usize::MAX, both classes at every code point; an implementation PANIC is by itself a failing input.',
         note='Partial by nature: allocation failure, stack exhaustion, panics inside std/unicode-normalization are outside the model (observed only under catch_unwind). Trusted: Lean kernel; placement of `panic` outcomes in the hand-written model.',
         technique='Lean 4 proof (corollaries of functional-correctness theorems; overflow guards by case analysis) + catch_unwind differential enumeration of byte-length x position combinations',
         design='§6 C01'),
